@@ -1,5 +1,9 @@
-(* C07/C06 -- redb's ALLOCATION RECORDS on top of the page-ownership model Own.v (definitions only;
-   proofs in AllocRecBaseP.v, AllocRecStepP.v, AllocRecCommitP.v, AllocRecP.v).
+(* C07/C06 -- redb's ALLOCATION RECORDS on top of the page-ownership model Own.v (definitions only).
+   Proofs: AllocRecBaseP.v (filters, savepoint horizon, checker soundness), AllocRecStepP.v / Step2P / Step3P
+   (steps outside restore and commit), AllocRecRestoreP.v (restore: exactness + preservation), AllocRecCommitP.v /
+   Commit2P / Commit3P / Commit4P (the two commit pipelines, stage by stage), AllocRecP.v (rec_inv,
+   restore_frees_exactly, tracking_disabled_safe), AllocRecDrainP.v (bounded_storage / savepoint_no_leak).
+   Statements: coq/Props/C07.v and coq/Props/C06.v.
 
    Own.v specifies `restore` by WHAT must be queued for freeing.  This file models the mechanism the
    code uses to find that set, as a record state `arec` carried next to an `Own.st`:
